@@ -203,6 +203,35 @@ fn add_expect(cs: &mut CaseSet, tb: &[OpSpec], prog: Prog, qs: Vec<Query>, note:
     cs.add(tb, prog, qs, note, family, size, move |obs| expect_value(&tb2, &want2, &vars2, obs, &qs2))
 }
 
+/// a wide single level: 129..200 operands, mostly one low-priority operator, tighter operators at and around the 64-operand
+/// boundaries and at random places; `lits` puts literals on some operands (pairs of them fold)
+fn wide_level(r: &mut Rng, i: usize, lits: bool) -> Option<(Vec<OpSpec>, Chain)> {
+    let tb = std_tables()[if i % 3 == 2 { 1 } else { 0 }].clone();
+    let sym: Vec<usize> = (0..tb.len()).filter(|k| tb[*k].bin.is_some() && !is_alpha_name(&tb[*k].repr)).collect();
+    let lo = *sym.iter().min_by_key(|k| tb[**k].bin.unwrap().0).unwrap();
+    let tight: Vec<usize> = sym.iter().copied().filter(|k| tb[*k].bin.unwrap().0 > tb[lo].bin.unwrap().0).collect();
+    if tight.is_empty() { return None }
+    let m = if i % 4 == 3 { 140 + r.below(61) } else { 129 + r.below(72) };
+    let mut ops: Vec<usize> = vec![lo; m - 1];
+    for b in [63usize, 127, 191] { for d in 0..3 { let j = b + d; if j >= 1 && j - 1 + (i % 3) < m - 1 && r.chance(2, 3) { ops[j - 1 + (i % 3) - if j - 1 + (i % 3) > 0 && i % 2 == 0 { 1 } else { 0 }] = *r.pick(&tight); } } }
+    for _ in 0..r.below(6) { let j = r.below(m - 1); ops[j] = *r.pick(&tight); }
+    // a run of tight operators that crosses a boundary
+    if i % 4 == 1 { let start = [60usize, 120, 125][r.below(3)]; for j in start..(start + 3 + r.below(8)).min(m - 1) { ops[j] = *r.pick(&tight); } }
+    // the top operand of the first word consumed early (a tight operator in front of operand 63), and behind the second
+    // boundary a tight operator whose left operand is the result of a run of the tightest operator that reaches back into
+    // the second word: looking for that operand crosses a word boundary and ends inside a partly consumed word
+    if i % 4 == 3 && m >= 140 {
+        let tl = *tight.iter().min_by_key(|k| tb[**k].bin.unwrap().0).unwrap(); let th = *tight.iter().max_by_key(|k| tb[**k].bin.unwrap().0).unwrap();
+        ops[62] = tl;
+        let start = 100 + r.below(27); let end = 128 + r.below(6);
+        for j in start..end { ops[j] = th; }
+        ops[end] = tl;
+    }
+    let atom = |r: &mut Rng, j: usize| if lits && r.chance(1, 3) { Atom::Lit(format!("{}", 1 + j % 3)) } else { Atom::Var(format!("x{:03}", j % if lits { 7 } else { 1000 })) };
+    let rest: Vec<(usize, Atom)> = (1..m).map(|j| (ops[j - 1], atom(r, j))).collect();
+    Some((tb, Chain { first: Box::new(Atom::Var("x000".into())), rest }))
+}
+
 /// C02: folded / unfolded / re-folded flat and deep forms of literal-rich trees
 pub fn c02(a: &Args) -> CaseSet {
     let mut cs = CaseSet::default();
@@ -271,6 +300,16 @@ pub fn c02(a: &Args) -> CaseSet {
             let vars = sorted_vars(&ch); let want = ref_chain(&ch, &tb, &vars); let nv = vars.len();
             for p in [Prog::Deep(text.clone()), Prog::Flat(text.clone()), Prog::ToFlat(Box::new(Prog::Deep(text.clone())))] {
                 add_expect(&mut cs, &tb, p, vec![Query::Vars, Query::Eval(nv)], text.clone(), "long-mixed-level", m + 1, &want, &vars);
+            }
+        }
+        // wide levels with literals (129..200 operands: several machine words of operands; folding shortens the folded
+        // form, the unfolded one keeps every operand)
+        for i in 0..(if a.thorough { 32 } else { 8 }) {
+            let Some((tb, ch)) = wide_level(&mut r, i, true) else { continue };
+            let text = render(&ch, &tb, &mut r, &RenderCfg::plain());
+            let vars = sorted_vars(&ch); let want = ref_chain(&ch, &tb, &vars); let nv = vars.len();
+            for p in [Prog::FlatWo(text.clone()), Prog::Flat(text.clone()), Prog::Compile(Box::new(Prog::FlatWo(text.clone()))), Prog::Deep(text.clone())] {
+                add_expect(&mut cs, &tb, p, vec![Query::Vars, Query::Eval(nv)], format!("{} operands: {}...", n_operands(&ch), text.chars().take(30).collect::<String>()), "wide-level-with-literals", n_operands(&ch), &want, &vars);
             }
         }
     }
@@ -388,6 +427,15 @@ pub fn c03(a: &Args) -> CaseSet {
         let vars = sorted_vars(&ch); let want = ref_chain(&ch, &tb, &vars); let nv = vars.len();
         for p in [Prog::Deep(text.clone()), Prog::ToFlat(Box::new(Prog::Deep(text.clone()))), Prog::Flat(text.clone()), Prog::ToDeep(Box::new(Prog::FlatWo(text.clone())))] {
             add_expect(&mut cs, &tb, p, vec![Query::Vars, Query::Eval(nv)], text.clone(), "long-level", m + 1, &want, &vars);
+        }
+    }
+    // wide levels (129..200 operands on one level), flat, deep and converted
+    for i in 0..(if a.thorough { 32 } else { 8 }) {
+        let Some((tb, ch)) = wide_level(&mut r, i, i % 2 == 0) else { continue };
+        let text = render(&ch, &tb, &mut r, &RenderCfg::plain());
+        let vars = sorted_vars(&ch); let want = ref_chain(&ch, &tb, &vars); let nv = vars.len();
+        for p in [Prog::Deep(text.clone()), Prog::Flat(text.clone()), Prog::FlatWo(text.clone()), Prog::ToFlat(Box::new(Prog::Deep(text.clone()))), Prog::ToDeep(Box::new(Prog::FlatWo(text.clone())))] {
+            add_expect(&mut cs, &tb, p, vec![Query::Vars, Query::Eval(nv)], format!("{} operands: {}...", n_operands(&ch), text.chars().take(30).collect::<String>()), "wide-level", n_operands(&ch), &want, &vars);
         }
     }
     // a unary operator over a group that ends `... o T o literal`, o flagged commutative, T ending in a literal bound by a
@@ -887,6 +935,28 @@ pub fn c12(a: &Args) -> CaseSet {
             expect_value(&tb2, &wt2, &wv2, obs, &qs2)
         });
     }
+    // braced names with blanks at their borders are names of their own (`{ y}`, `{y }`, `{y}`), and blanks take part in the
+    // order of the variables: what a deep or derived expression prints must parse back to the same variables and value
+    {
+        let tb = std_tables()[0].clone();
+        let ix = |n: &str| tb.iter().position(|o| o.repr == n).unwrap();
+        let v = |i: usize| Term::Var(i);
+        let corpus: Vec<(&str, Term, Vec<&str>)> = vec![
+            ("{ y}-{x}*2", tbin(ix("-"), v(0), tbin(ix("*"), v(1), Term::Lit("2".into()))), vec![" y", "x"]),
+            ("{x }/{x}", tbin(ix("/"), v(1), v(0)), vec!["x", "x "]),
+            ("sin({ a b })+{a b}^{ a b}", tbin(ix("+"), tun(ix("sin"), v(1)), tbin(ix("^"), v(2), v(0))), vec![" a b", " a b ", "a b"]),
+            ("{z }-{ z}-{z}", tbin(ix("-"), tbin(ix("-"), v(2), v(0)), v(1)), vec![" z", "z", "z "]),
+        ];
+        for (text, want, vars) in corpus {
+            let vars: Vec<String> = vars.iter().map(|s| s.to_string()).collect();
+            for (k, base) in [Prog::Deep(text.into()), Prog::ToDeep(Box::new(Prog::Flat(text.into()))), Prog::ToFlat(Box::new(Prog::Deep(text.into()))), Prog::Un("sin".into(), Box::new(Prog::Deep(text.into())))].into_iter().enumerate() {
+                let w = if k == 3 { tun(ix("sin"), want.clone()) } else { want.clone() };
+                for re in [Prog::ReFlat(Box::new(base.clone())), Prog::ReDeep(Box::new(base.clone())), Prog::SerdeFlat(Box::new(base.clone()))] {
+                    add_expect(&mut cs, &tb, re, vec![Query::Vars, Query::Eval(vars.len())], format!("reparse of {}", pretty_prog(&base)), "braced-names-with-border-blanks", 3, &w, &vars);
+                }
+            }
+        }
+    }
     // application by name of EVERY binary operator of a table (also those listed behind unary-only operators and constants),
     // the result converted flat -> deep again (operator indices travel with the flat form), printed, parsed again, serialised
     for (ti, tb) in std_tables().iter().enumerate() {
@@ -1087,6 +1157,34 @@ pub fn c13(a: &Args) -> CaseSet {
                     Some((want, vars)) => { let nv = vars.len(); add_expect(&mut cs, tb, prog, vec![Query::Vars, Query::Eval(nv)], text.clone(), family, 2, &want, &vars); }
                     None => { cs.add(tb, prog, vec![Query::Vars], text.clone(), family, 2, |obs| (Some(obs[0] == Obs::E), pretty_obs(&obs[0]))); }
                 }
+            }
+        }
+    }
+    // two tables of the SAME size and data type over the same names in different positions, used one after the other and
+    // again (nothing about the search order of one table may survive into the next parse): the longest name wins in each
+    {
+        let t5 = vec![OpSpec::bin_un("-", 0, false), OpSpec::un("--"), OpSpec::bin("*", 2, false), OpSpec::bin("**", 3, false), OpSpec::bin("<", 0, false), OpSpec::bin("<=", 0, false), OpSpec::un("log"), OpSpec::un("log2")];
+        let t6 = vec![OpSpec::bin("**", 3, false), OpSpec::un("log2"), OpSpec::bin("<=", 0, false), OpSpec::bin("*", 2, false), OpSpec::un("log"), OpSpec::bin_un("-", 0, false), OpSpec::bin("<", 0, false), OpSpec::un("--")];
+        for (ri, tb) in [&t5, &t6, &t5, &t6].into_iter().enumerate() {
+            let ix = |n: &str| tb.iter().position(|o| o.repr == n).unwrap();
+            let (x, y) = (Term::Var(0), Term::Var(1));
+            let lit = |s: &str| Term::Lit(s.to_string());
+            let one = vec!["x".to_string()]; let two = vec!["x".to_string(), "y".to_string()];
+            let cases: Vec<(&str, Term, Vec<String>)> = vec![
+                ("--x", tun(ix("--"), x.clone()), one.clone()),
+                ("- -x", tun(ix("-"), tun(ix("-"), x.clone())), one.clone()),
+                ("x<=2", tbin(ix("<="), x.clone(), lit("2")), one.clone()),
+                ("x<2", tbin(ix("<"), x.clone(), lit("2")), one.clone()),
+                ("2**3*x", tbin(ix("*"), tbin(ix("**"), lit("2"), lit("3")), x.clone()), one.clone()),
+                ("2*3**x", tbin(ix("*"), lit("2"), tbin(ix("**"), lit("3"), x.clone())), one.clone()),
+                ("log2 x", tun(ix("log2"), x.clone()), one.clone()),
+                ("log 2*x", tbin(ix("*"), tun(ix("log"), lit("2")), x.clone()), one.clone()),
+                ("x - --y", tbin(ix("-"), x.clone(), tun(ix("--"), y.clone())), two.clone()),
+                ("x<=y**2", tbin(ix("<="), x.clone(), tbin(ix("**"), y.clone(), lit("2"))), two.clone()),
+            ];
+            for (text, want, vars) in cases {
+                let prog = match ri % 3 { 0 => Prog::FlatWo(text.to_string()), 1 => Prog::Deep(text.to_string()), _ => Prog::Flat(text.to_string()) };
+                add_expect(&mut cs, tb, prog, vec![Query::Vars, Query::Eval(vars.len())], format!("[table {} of 2, use {}] {text}", ri % 2 + 1, ri + 1), "same-size-tables-in-turn", 3, &want, &vars);
             }
         }
     }
@@ -1822,12 +1920,13 @@ pub fn c06(a: &Args) -> CaseSet {
     // value-typed texts with array literals and boundary operands (folded at parse time: a panicking operator is a
     // panicking parse), through every value-typed entry point and follow-up call
     {
-        let ops2 = ["+", "-", "*", "/", "%", "^", "cross", "dot", "min", "max", "==", "<", "&&", "||", "<<", ">>", "|", "&", "if", "else", "atan2"];
-        let args = ["[1,2]", "[3,4]", "[1,2,3]", "[4,5,6]", "[]", "[1]", "[1.5,2]", "1", "0", "-1", "2.5", "0.0", "21", "33", "64", "-2147483647-1", "2147483647", "true", "(5 if false)", "(1/0)", "4", "16", "65536", "1e10"];
+        let ops2 = ["+", "-", "*", "/", "%", "^", "cross", "dot", "min", "max", "==", "<", "&&", "||", "<<", ">>", "|", "&", "if", "else", "atan2", ".", "XOR", "!=", ">=", "<=", ">"];
+        let args = ["[1,2]", "[3,4]", "[1,2,3]", "[4,5,6]", "[]", "[1]", "[1.5,2]", "1", "0", "-1", "2", "3", "2.5", "0.0", "21", "33", "64", "-2147483647-1", "2147483647", "true", "(5 if false)", "(1/0)", "4", "16", "65536", "1e10"];
         let uns = ["fact", "to_int", "to_float", "abs", "-", "!", "sqrt", "ln", "floor", "signum", "sin"];
         let mut texts: Vec<String> = vec![];
         for o in ops2 { for (i, x) in args.iter().enumerate() { for (j, y) in args.iter().enumerate() { if (i + 2 * j) % 3 == 0 || a.thorough { texts.push(format!("{x} {o} {y}")); } if (i + j) % 7 == 0 && o.chars().all(|c| c.is_alphabetic()) { texts.push(format!("{o}({x}, {y})")); } } } }
         for u in uns { for x in args { texts.push(format!("{u}({x})")); } }
+        for arr in ["[]", "[7]", "[1,2]", "[1.0, 2.0, 3.0]", "([1,2,3]+[1,2])", "[1,2,3,4,5]"] { for i in ["0", "1", "2", "3", "4", "5", "6", "-1", "1.0", "true", "(0-1)", "(1+1)", "(2+1)"] { texts.push(format!("{arr}.{i}")); texts.push(format!("({arr}).({i})")); texts.push(format!("1+{arr}.{i}*2")); } }
         for t in texts {
             count += 1;
             if let Err(call) = follow_up_val(&t) {
